@@ -23,6 +23,7 @@ THEOREMS = [
     "Vinegar.C13.aggregate_version_injective",
     "Vinegar.C13.composite_version_injective",
     "Vinegar.C13.composite_version_changes",
+    "Vinegar.C13.merge_assoc_partial",
 ]
 TRUSTED_BASE = [
     "Lean 4 kernel; axioms of every listed theorem audited each run to be within {propext, Classical.choice, Quot.sound}",
@@ -46,8 +47,8 @@ ASSUMPTIONS = [
     "(the MD5 fallback encodes with errors='ignore', which would identify such strings).",
     "Chained sources are harness test doubles (scripted const / raise / echo-preceding-data / system-id behaviours) "
     "subclassing the real DataSource; the composite is built by the real get_composite_data_source.",
-    "Associativity is proved for merge_lists = merge_sets = False only (merge_assoc_partial); with the flags on it rests "
-    "on the differential check of error-free triples (clause assoc).",
+    "Associativity is proved only per key for one-level trees with both flags off (merge_assoc_partial); in general it "
+    "rests on the differential check of error-free triples (clause assoc: both bracketings of the real merge agree).",
 ]
 RULE = ("merge: exhaustive single-common-key pairs over a 24-value alphabet covering every kind x kind combination "
         "(E1, x 4 flag settings), every pair of ordered <=2-key dicts over keys x/True/1 (E2, key order and bool/int "
